@@ -32,6 +32,16 @@ def handleC02 (f : List String) : Res :=
       let r := cmp "program" mP Pr r
       let r := cmp "ops" (showOpsAll c) O r
       let r := cmp "translated-ops" (showOpsSrc c) O r
+      let r := cmp "translated-validate"
+        (match AC.Gen.Program.chainValidate c with | some none => "1" | some (some _) => "0" | none => "panic") V r
+      let r := cmp "translated-program"
+        (match AC.Gen.Program.chainProgram c with
+         | some (g, none) => showList (fun o : AC.GoPrim.GOp => s!"{o.I}:{o.J}") g
+         | some (_, some _) => "err" | none => "panic") Pr r
+      let r := cmp "translated-produces"
+        (match AC.Gen.Program.chainProduces c t with | some none => "1" | some (some _) => "0" | none => "panic") PR r
+      let r := cmp "translated-superset"
+        (match AC.Gen.Program.chainSuperset c tl with | some none => "1" | some (some _) => "0" | none => "panic") SU r
       let r := cmp "translated-ascending"
         (match AC.Gen.Program.chainIsAscending c with | some b => b01 b | none => "panic") A r
       let r := cmp "evaluate" mE E r
